@@ -38,6 +38,12 @@ def find_builder(ctx):
         vals = [(agg_get(o.value, name), o) for o in outs]
         if all(isinstance(t, tuple) and t[0] == "call" and t[1].split("::")[-1] == "should_gzip" for t, _ in vals):
             roles["sg"], roles["sg_term"], roles["sg_inv"] = name, vals[0][0], 0
+        elif len(sgcalls) <= 1 and any(isinstance(t, tuple) and t[0] == "call" and t[1].split("::")[-1] == "should_gzip" for t, _ in vals) and \
+                all(is_const(t) or (isinstance(t, tuple) and t[0] == "call" and t[1].split("::")[-1] == "should_gzip") for t, _ in vals):
+            # the negotiation result on some constructor paths, a constant on others: the role is clear, the rule C17.R3 reports it
+            c = [t for t, _ in vals if not is_const(t)][0]
+            roles["sg"], roles["sg_term"], roles["sg_inv"] = name, c, 0
+            roles["sg_partial"] = [(o, t) for t, o in vals if is_const(t)]
         elif len(sgcalls) == 1 and all(is_const(t) for t, _ in vals):
             c = next(iter(sgcalls))
             rel = {(o.cons.known.get(c), t[1]) for t, o in vals}
@@ -227,6 +233,10 @@ def coding_agreement(ctx):
     # R3: the negotiation input
     sgt = r["sg_term"]
     s = repr(sgt)
+    for o_, t_ in r.get("sg_partial", []):
+        conds = [fmt_term(k)[:80] + "=" + str(v) for k, v in o_.cons.known.items()]
+        ctx.violation("C17.R3", "C17.R3|negotiation-skipped", "on a constructor path (%s) the builder's negotiation flag is the constant %s instead of "
+                      "should_gzip(request headers): headers and body coding no longer follow the client's Accept-Encoding there" % ("; ".join(conds[:3]), t_[1]))
     if "AsRequest::headers" not in s:
         ctx.violation("C17.R3", "C17.R3|input", "should_gzip is not evaluated on the request's own headers: %s" % short(sgt, 100))
     else:
